@@ -600,3 +600,24 @@ Proof.
     - rewrite set_level_nth_other in Ht by congruence. eapply Hok; eauto. }
   apply level_valid_sorted; auto; apply Forall_forall; intros t Ht; apply Hall; exact Ht.
 Qed.
+
+(* the rule "Same keys should go into the same SSTable": the entry before a cut and the
+   entry after it have different user keys *)
+Lemma cut_ok_boundary s id n r x y :
+  cut_ok s ((id, n) :: r) = true ->
+  last_ent (firstn (N.to_nat n) s) = Some x -> hd_error (skipn (N.to_nat n) s) = Some y ->
+  e_key x <> e_key y.
+Proof.
+  cbn [cut_ok]. intros H Hx Hy. repeat (apply andb_true_iff in H; destruct H as [H ?]).
+  rewrite Hx in H1. destruct (skipn (N.to_nat n) s) as [|y0 b]; [discriminate|]. inversion Hy; subst y0.
+  apply negb_true_iff in H1. intros E. rewrite E, bytes_eqb_refl in H1. discriminate.
+Qed.
+
+Corollary sw_run_ents writes st :
+  sw_writes (mkSWS [] 0) writes = Some st ->
+  forall sid, wents (sw_writers st) sid = stream_ents sid (concat writes).
+Proof. intros H sid. now rewrite (sw_writes_ents _ _ _ H). Qed.
+
+Corollary sw_run_sorted writes st :
+  sw_writes (mkSWS [] 0) writes = Some st -> writers_sorted (sw_writers st).
+Proof. intros H. eapply sw_writes_sorted; eauto. constructor. Qed.
